@@ -18,7 +18,7 @@ def mutate_text(rng, text):
     lines = text.split('\n')
     body = [i for i, l in enumerate(lines) if l.strip() and not l.strip().startswith('#')]
     k = rng.choice(['delete', 'duplicate', 'swap', 'rename', 'truncate', 'indent', 'scalar2seq', 'scalar2map', 'badhex', 'range', 'empty', 'dupid', 'alias', 'multidoc',
-                    'missing', 'emptyfile', 'noise', 'tab', 'flow', 'longscalar', 'nullvalue', 'delblock'])
+                    'missing', 'emptyfile', 'noise', 'tab', 'flow', 'longscalar', 'nullvalue', 'delblock', 'dupvalue', 'dupvalue'])
     if k == 'missing':
         return None, k
     if k == 'emptyfile':
@@ -70,6 +70,20 @@ def mutate_text(rng, text):
             lines[a] = lines[a].split('id:')[0] + 'id:' + lines[b].split('id:')[1]
         else:
             lines.insert(i, l)
+    elif k == 'dupvalue':
+        # give two elements the same value of some key (duplicate DCC addresses, numbers, ports, segment addresses, CVs, unique ids, bits)
+        keyed = {}
+        for j in body:
+            t = lines[j].strip().lstrip('- ')
+            if ':' in t and t.split(':', 1)[1].strip():
+                keyed.setdefault(t.split(':', 1)[0], []).append(j)
+        cand = [k2 for k2, v in keyed.items() if len(v) >= 2 and k2 not in ('id', 'value')] or [k2 for k2, v in keyed.items() if len(v) >= 2]
+        if cand:
+            key = rng.choice(cand)
+            a, b = rng.sample(keyed[key], 2)
+            lines[a] = lines[a].split(':', 1)[0] + ':' + lines[b].split(':', 1)[1]
+        else:
+            lines.insert(i, l)
     elif k == 'alias':
         lines[i] = l.replace(': ', ': &anc ', 1) if rng.random() < 0.5 else (l.split(':', 1)[0] + ': *anc' if ':' in l else '- *anc')
     elif k == 'multidoc':
@@ -85,12 +99,38 @@ def mutate_text(rng, text):
         k = 'delete'
     return '\n'.join(lines), k
 
+def semantic_faults(cfg, rng):
+    """ambiguity faults on the abstract configuration: the classes C14 lists plus cross-kind collisions (a DCC signal re-using the address
+    of a DCC point, a point re-using a signal's id ...), which C13 must survive whatever the verdict is"""
+    from .C14 import faults
+    fs = list(faults(cfg, rng))
+    B = cfg['boards']
+    dccs = [(bi, k, ai) for bi, b in enumerate(B) for k in ('points_dcc', 'signals_dcc') for ai, a in enumerate(b.get(k) or [])]
+    for x in dccs:
+        for y in dccs:
+            if x != y:
+                fs.append(('dcc-address-reused', f'{x}={y}', lambda c, x=x, y=y: c['boards'][x[0]][x[1]][x[2]].__setitem__('addr', c['boards'][y[0]][y[1]][y[2]]['addr'])))
+    accs = [(bi, k, ai) for bi, b in enumerate(B) for k in ('points_board', 'points_dcc', 'signals_board', 'signals_dcc', 'peripherals', 'segments', 'reversers') for ai, a in enumerate(b.get(k) or [])]
+    for _ in range(6):
+        if len(accs) >= 2:
+            x, y = rng.sample(accs, 2)
+            fs.append(('id-reused-across-kinds', f'{x}={y}', lambda c, x=x, y=y: c['boards'][x[0]][x[1]][x[2]].__setitem__('id', c['boards'][y[0]][y[1]][y[2]]['id'])))
+    return fs
+
 def gen_case(ctx, k, valid):
     rng = ctx.sub_rng('c13', k)
     base = cfggen.gen_config(rng, nboards=rng.randrange(1, 4))
     texts = [cfggen.board_yaml(base), cfggen.track_yaml(base), cfggen.train_yaml(base)]
     classes = []
-    for _ in range(rng.choice([1, 1, 1, 2, 3])):
+    if k % 4 == 3:
+        # a semantic ambiguity instead of a textual mutation
+        from .C14 import apply_fault
+        fs = semantic_faults(base, rng)
+        if fs:
+            f = rng.choice(fs)
+            texts = list(apply_fault(base, f))
+            classes.append('semantic:' + f[0])
+    for _ in range(0 if classes and rng.random() < 0.7 else rng.choice([1, 1, 1, 2, 3])):
         f = rng.randrange(3)
         if texts[f] is None:
             continue
@@ -115,7 +155,7 @@ def gen_case(ctx, k, valid):
 
 def run(ctx):
     ctx.rule = ('1-3 structure-aware mutations (delete/duplicate/swap/rename key, truncate, re-indent, scalar<->sequence/mapping, bad hex, out-of-range, empty/null values, duplicate ids, '
-                'anchors/aliases, extra documents, tabs, flow-syntax debris, very long scalars, missing file, empty file, byte noise) over the three files of a generated valid '
+                'duplicated values of any key, semantic ambiguities on the abstract configuration (every class of C14 plus cross-kind re-use of DCC addresses and ids), anchors/aliases, extra documents, tabs, flow-syntax debris, very long scalars, missing file, empty file, byte noise) over the three files of a generated valid '
                 'configuration; six identical start attempts (answering or silent interface) followed by a start with a valid configuration, each case in its own process. '
                 'non-trivial = distinct mutated triple that was rejected (return 1) and after which the valid restart was verified')
     ctx.assumptions = ['allocated bytes: a leak is growth at each of the attempts 4, 5 and 6 of six identical ones (single steps are one-time initialisations); LSan at exit', 'watchdog 120 s per case; a watchdog expiry inside bidib_start_pointer is a violation (statement: terminates)']
